@@ -699,7 +699,7 @@ func init() {
 	register("scn-crashx", func(g *Gen, tier string, emit func(Case)) { genExhaustive(g, tier, emit, "crash") })
 	for name, pf := range profiles {
 		pf := pf
-		register(name, func(g *Gen, tier string, emit func(Case)) {
+		register(name, reconfigured(func(g *Gen, tier string, emit func(Case)) {
 			n := 120
 			if tier == "thorough" {
 				n = 4000
@@ -707,6 +707,6 @@ func init() {
 			for i := 0; i < n; i++ {
 				emit(genScenario(g, pf))
 			}
-		})
+		}))
 	}
 }
